@@ -345,3 +345,182 @@ Proof. vm_compute. split; reflexivity. Qed.
 (* Print Assumptions for every theorem above that did not have its own line yet *)
 Print Assumptions C08_polarity_v0_refuted.
 Print Assumptions C08_absent_v0_refuted.
+
+(* ====================================================================================== *)
+(* Soundness of the judges: for EVERY case -- any history, writable mask, id function,      *)
+(* predicate, read mask, equivalence, and any observation whatsoever -- that agrees with    *)
+(* the model, the property predicate evaluated on the observation holds.  So a verdict 2    *)
+(* ("the model agrees but the property fails") cannot occur for these kinds of case, and    *)
+(* the end-to-end theorems above are what the correspondence run checks, carried across     *)
+(* the executable comparisons (cc_matches, list_eqb, view_lookup, same_map, equiv_map) and  *)
+(* the implementation-shaped model (run_c = impl_step, refined to spec_step).               *)
+(* ====================================================================================== *)
+From SC Require Import Resource.FlatProofs Resource.HeldJudge Resource.C08Judge
+  Resource.JudgeSound08 Resource.JudgeSound08x Timeline.Timestamp.
+
+(* generator C08 (judge08): a backpressured subscriber with include / mask / equivalence *)
+Theorem C08_judge_sound_cpull : forall w i e before ro after codes witness stream final,
+  Judge.agrees (CaseCPull w i e before ro after codes witness stream final) = true ->
+  C08_ok (CaseCPull w i e before ro after codes witness stream final) = true.
+Proof. exact judge08_sound_cpull. Qed.
+Print Assumptions C08_judge_sound_cpull.
+
+(* the whole of judge08: every kind but the model-free CaseFold (lossy delivery / trait servers,
+   where agrees is constantly true and the oracle alone judges) *)
+Theorem C08_judge_sound : forall c,
+  Judge.agrees c = true -> match c with CaseFold _ _ _ => False | _ => True end -> C08_ok c = true.
+Proof. exact judge08_sound. Qed.
+Print Assumptions C08_judge_sound.
+
+(* generator C08H (judge08h), backpressure: the END clause of C08H_ok (fold of the whole stream
+   equivalent to the final List, id by id) follows from agreement.  _partial: the clause at the
+   marks compares with listings taken during the run, which agreement does not constrain *)
+Theorem C08_judge_sound_held_partial : forall e before ro after stream final,
+  agrees_h (CaseH e before ro false after stream final) = true ->
+  (r_updates_only ro = false -> equiv_map (h_eqv e) (Pull.fold_view (map to_cc stream)) final = true) /\
+  C08H_ok (CaseH e before ro false after stream final) = (r_updates_only ro || marks_ok (h_eqv e) stream after).
+Proof.
+  intros e before ro after stream final H. split.
+  - intros UO. eapply judge08h_sound_final; eassumption.
+  - apply judge08h_sound_partial. exact H.
+Qed.
+Print Assumptions C08_judge_sound_held_partial.
+
+(* generator C08x (judge08x), table rows: for ANY row (any change, any answers of the predicate,
+   any output) -- not only the 768 generated ones -- agreement with x_include gives the fold law *)
+Theorem C08_judge_sound_row : forall ch pin pn pnil out,
+  C08Judge.agrees (CaseRow ch pin pn pnil out) = true -> C08x_ok (CaseRow ch pin pn pnil out) = true.
+Proof. exact judge08x_sound_row. Qed.
+Print Assumptions C08_judge_sound_row.
+
+(* the booking predicate: the model of PeriodsIntersect the listing is compared with IS the
+   arithmetic reference, for all periods with valid timestamps (inverted / empty / half-bounded
+   / absent included) *)
+Theorem C08_booking_predicate_is_reference : forall req booked,
+  operiod_ts_ok req = true -> operiod_ts_ok booked = true -> book_in req booked = book_in_ref req booked.
+Proof. exact book_in_is_ref. Qed.
+Print Assumptions C08_booking_predicate_is_reference.
+
+Theorem C08_judge_sound_booklist : forall req store listed,
+  C08Judge.agrees (CaseBookList req store listed) = true -> book_guard (CaseBookList req store listed) = true ->
+  C08x_ok (CaseBookList req store listed) = true.
+Proof. exact judge08x_sound_booklist. Qed.
+Print Assumptions C08_judge_sound_booklist.
+
+(* _partial: PullBookings' stream is not modelled (the booking server's own Pull); agreement gives
+   the listing clause, the fold clause stays on the observation *)
+Theorem C08_judge_sound_bookpull_partial : forall req contents stream final,
+  C08Judge.agrees (CaseBookPull req contents stream final) = true ->
+  book_guard (CaseBookPull req contents stream final) = true ->
+  C08x_ok (CaseBookPull req contents stream final) = same_map (Pull.fold_view (map to_cc stream)) final.
+Proof. exact judge08x_sound_bookpull_partial. Qed.
+Print Assumptions C08_judge_sound_bookpull_partial.
+
+(* non-vacuity: cases that DO agree, with non-trivial streams.  The observation is the model's
+   stream written as the harness writes it (ochange records). *)
+Definition oc_of (c : cchange fmsg) : ochange :=
+  mkOC (cc_id c) (cc_time c) (kind_code (cc_kind c)) (cc_old c) (cc_new c) (cc_seed c) (cc_last_seed c).
+
+Example C08_judge_sound_nonvacuous :
+  let o := mkFWO None None None None false None false None false None None true false false false in
+  let ro := mkFRO None false (Some (PFieldGe Fa 2)) in
+  let before := [FUpdate "a" (mkF 1 0 0) o []; FUpdate "b" (mkF 3 0 0) o []] in
+  let after := [FUpdate "a" (mkF 2 0 0) o []; FUpdate "b" (mkF 1 0 0) o []; FUpdate "a" (mkF 4 0 0) o []] in
+  let '(cs, s2) := model_cstream None None None before ro after in
+  let c := CaseCPull None None None before ro after [0; 0; 0] [] (map oc_of cs)
+                     (c_list fr_filter s2 None (Some (interp_pred (PFieldGe Fa 2)))) in
+  Judge.agrees c = true /\ List.length cs = 4%nat /\ C08_ok c = true.
+Proof. vm_compute. auto. Qed.
+
+(* ... with an equivalence, an item leaving the filter and returning with the value last sent *)
+Example C08_judge_sound_nonvacuous_equivalence :
+  let o := mkFWO None None None None false None false None false None None true false false false in
+  let ro := mkFRO None false (Some (PFieldGe Fa 1)) in
+  let before := [FUpdate "a" (mkF 1 0 0) o []] in
+  let after := [FUpdate "a" (mkF 0 7 0) o []; FUpdate "a" (mkF 1 0 0) o []] in
+  let '(cs, s2) := model_cstream None None (Some EqAll) before ro after in
+  let fin := c_list fr_filter s2 None (Some (interp_pred (PFieldGe Fa 1))) in
+  Judge.agrees (CaseCPull None None (Some EqAll) before ro after [0; 0] [] (map oc_of cs) fin) = true /\
+  agrees_h (CaseH (Some EqAll) before ro false (map (fun op => (op, 0, None)) after) (map oc_of cs) fin) = true /\
+  map (fun c => cc_kind c) cs = [KAdd; KRemove; KAdd].
+Proof. vm_compute. auto. Qed.
+
+(* ... a REPLACE row (matching -> non-matching, returned as REMOVE), and a booking store with an
+   inverted, a half-bounded and an absent period against a proper request *)
+Example C08_judge_sound_nonvacuous_row_and_booking :
+  C08Judge.agrees (CaseRow (mkChange 0 K_REPLACE (Some TOK_OLD) (Some TOK_NEW) 5 false false) true false false
+                           (Some (mkChange 0 K_REMOVE (Some TOK_OLD) None 5 false false))) = true /\
+  let t := fun s => Some (mkTs s 0) in
+  let req := Some (mkPeriod (t 4) (t 6)) in
+  let store := [(1, Some (mkPeriod (t 8) (t 2))); (2, Some (mkPeriod (t 5) None)); (3, None);
+                (4, Some (mkPeriod (t 6) (t 8))); (5, Some (mkPeriod (t 2) (t 5)))] in
+  let listed := map fst (filter (fun kv => book_in req (snd kv)) store) in
+  C08Judge.agrees (CaseBookList req store listed) = true /\ book_guard (CaseBookList req store listed) = true /\
+  (listed <> [] /\ List.length listed < List.length store)%nat.
+Proof. vm_compute. repeat split; try discriminate; lia. Qed.
+
+(* ====================================================================================== *)
+(* "behaves as if the collection contained only the items satisfying it": nothing the       *)
+(* filtered subscriber receives mentions a version the predicate rejects.  Both delivery    *)
+(* modes, every history / schedule, every kind, every predicate (the oracle clause          *)
+(* mentions_only_matching of C08x_ok, as a theorem of the model).                           *)
+(* ====================================================================================== *)
+From SC Require Import Resource.IncludeMatchProofs.
+
+Theorem C08_delivered_versions_all_match : forall (f : ipred),
+  (forall sent, Forall (matching f) (bp_stream (Some f) sent)) /\
+  (forall l, Forall (matching f) (lossy_stream (Some f) l)).
+Proof. intros f. split; [apply bp_all_matching|apply lossy_all_matching]. Qed.
+Print Assumptions C08_delivered_versions_all_match.
+
+(* one change: what include returns keeps the id and the time, carries at least one version, and
+   only versions the predicate accepts *)
+Theorem C08_include_returns_matching : forall (f : ipred) c o,
+  x_include (Some f) c = Some o -> matching f o /\ cid o = cid c /\ ctime o = ctime c.
+Proof. exact include_delivers_matching. Qed.
+Print Assumptions C08_include_returns_matching.
+
+(* a change between two versions the predicate rejects (or absent ones) is never delivered *)
+Theorem C08_stays_out_never_delivered : forall (f : ipred) c,
+  (forall t, cold c = Some t -> f (cid c) (Some t) = false) ->
+  (forall t, cnew c = Some t -> f (cid c) (Some t) = false) ->
+  x_include (Some f) c = None.
+Proof. exact stays_out_never_delivered. Qed.
+Print Assumptions C08_stays_out_never_delivered.
+
+(* non-vacuity: a predicate TRUE on absent values; the update 1 -> 2 of a rejected item is dropped,
+   the REPLACE 5 -> 1 arrives as a REMOVE carrying only the accepted version 5 *)
+Example C08_nonvacuous_delivered_match :
+  let p : ipred := fun _ v => match v with Some t => 3 <=? t | None => true end in
+  bp_stream (Some p) [mkChange 7 K_UPDATE (Some 1) (Some 2) 9 false false;
+                      mkChange 0 K_REPLACE (Some 5) (Some 1) 12 false false] =
+    [mkChange 0 K_REMOVE (Some 5) None 12 false false].
+Proof. vm_compute. reflexivity. Qed.
+
+(* generator C08x, lossy public-API scenario: of the four clauses of C08x_ok, "nothing delivered
+   mentions a version the predicate rejects" follows from agreement with seeds ++ include(m_run).
+   _partial: fold = List, seeds first and the old-value chain stay oracle clauses (they need the
+   token reading of the run_c history, see notes) *)
+Theorem C08_judge_sound_lossy_matching_partial : forall what before ro phases stream final,
+  C08Judge.agrees (CaseLossy what before ro phases stream final) = true ->
+  le_guard (lossy_model before ro phases) = true ->
+  mentions_only_matching ro stream = true.
+Proof. exact judge08x_sound_lossy_matching_partial. Qed.
+Print Assumptions C08_judge_sound_lossy_matching_partial.
+
+(* non-vacuity: a guarded lossy case that agrees: seed b, plug on p, then a leaves the filter and
+   b is deleted and re-added below the threshold while the reader is stalled *)
+Example C08_judge_sound_nonvacuous_lossy :
+  let o := mkFWO None None None None false None false None false None None true false false false in
+  let ro := mkFRO None false (Some (PFieldGe Fa 2)) in
+  let before := [FUpdate "a" (mkF 1 0 0) o []; FUpdate "b" (mkF 3 0 0) o []] in
+  let phases := [[FUpdate "p" (mkF 9 0 0) o []; FUpdate "a" (mkF 4 0 0) o []; FDelete "b" o;
+                  FUpdate "b" (mkF 1 0 0) o []; FUpdate "z" (mkF 9 0 0) o []]] in
+  let e := lossy_model before ro phases in
+  let stream := map oc_of (le_seeds e) ++
+                map (fun c => mkOC (dec_id (le_tbl e) (cid c)) (ctime c) (ckind c) (option_map dec_msg (cold c))
+                                   (option_map dec_msg (cnew c)) (cseed c) (clast c)) (le_got e) in
+  let fin := c_list fr_filter (le_final e) None (Some (interp_pred (PFieldGe Fa 2))) in
+  le_guard e = true /\ C08Judge.agrees (CaseLossy "x" before ro phases stream fin) = true /\
+  map oc_kind stream = [1; 1; 1; 3; 1] /\ C08x_ok (CaseLossy "x" before ro phases stream fin) = true.
+Proof. vm_compute. auto. Qed.
